@@ -60,12 +60,12 @@ func (k Kind) Width() int {
 type MergeKind uint8
 
 const (
-	MDefault  MergeKind = iota // numbers: wrapping addition; strings/records: replace by the delta
-	MMulAdd                    // numbers: value*3 + delta (order-sensitive, wrapping)
-	MConcat                    // strings: value + delta (changes the length)
-	MMix                       // strings: order-sensitive, same length as the delta
-	MRecSum                    // records: A += d.A, B = v.B + d.B (changes the length)
-	MRecMix                    // records: A = v.A*3 + d.A, B = d.B (order-sensitive, same length as the delta)
+	MDefault MergeKind = iota // numbers: wrapping addition; strings/records: replace by the delta
+	MMulAdd                   // numbers: value*3 + delta (order-sensitive, wrapping)
+	MConcat                   // strings: value + delta (changes the length)
+	MMix                      // strings: order-sensitive, same length as the delta
+	MRecSum                   // records: A += d.A, B = v.B + d.B (changes the length)
+	MRecMix                   // records: A = v.A*3 + d.A, B = d.B (order-sensitive, same length as the delta)
 	numMergeKinds
 )
 
